@@ -195,8 +195,15 @@ func runCheck(prop, tier string, overlay map[string][]byte, quiet bool) (int, *C
 	// are retried, and only when they are few - many timeouts at once are not load noise.
 	if tier != "thorough" {
 		var retry []int
+		knownObl := map[string]bool{}
+		for _, k := range loadKnownFindings() {
+			if k.Status == "known" && k.Property == prop {
+				knownObl[k.Obligation] = true
+			}
+		}
 		for i, r := range results {
-			if r != nil && r.Status == "undecided" {
+			// an obligation listed as a known finding is expected not to discharge: no second attempt
+			if r != nil && r.Status == "undecided" && !knownObl[r.O.Name] {
 				retry = append(retry, i)
 			}
 		}
